@@ -103,7 +103,7 @@ def plan(S, prop, mode, tier, avoid):
             op.update({"m": m, "n": wpick(r, [(None, 0.5), (1, 1), (r.randrange(2, 60), 4)]),
                        "gseed": r.randrange(1 << 30), "cumulative": chance(r, 0.3),
                        "func": chance(r, 0.35), "via_xrange": chance(r, 0.4),
-                       "dens": pick(r, ["flat", "gauss", "power", "rough", "steep", "fartail"]),
+                       "dens": pick(r, ["flat", "gauss", "power", "rough", "steep", "fartail", "gap"]),
                        "x0": round(r.uniform(-100, 100), 3), "w": float("%.3g" % (10 ** r.uniform(-3, 3)))})
             if chance(r, 0.12):
                 # two samplers built one after the other from the SAME density object on the SAME grid; the object's
@@ -112,7 +112,7 @@ def plan(S, prop, mode, tier, avoid):
                 sib = dict(op, seed=r.randrange(1 << 30), dens=pick(r, [d_ for d_ in ["flat", "gauss", "power", "steep"] if d_ != op["dens"]]))
                 ops.append(dict(op))
                 op = sib
-            if op["dens"] == "fartail" and op["cumulative"]:
+            if op["dens"] in ("fartail", "gap") and op["cumulative"]:
                 # a caller-supplied cumulative table with runs of equal values describes a density that is zero
                 # there: outside the quantifier (positive densities).  Far tails only through the density itself
                 op["dens"] = "gauss"
@@ -469,6 +469,10 @@ def _density(op):
         # positive everywhere, but the tails are so far out that the normalised cumulative table has
         # runs of exactly equal values (0-plateau at the start, 1.0-plateau at the end)
         f = lambda tt: np.exp(-0.5 * ((tt - 0.45) / 0.03) ** 2)         # noqa: E731
+    elif kind == "gap":
+        # two lines with a faint (positive) continuum between them: the running integral stalls in the middle -- a run of
+        # exactly equal cumulative values away from both ends -- and then rises abruptly
+        f = lambda tt: np.exp(-0.5 * ((tt - 0.2) / 0.02) ** 2) + 0.7 * np.exp(-0.5 * ((tt - 0.8) / 0.02) ** 2)   # noqa: E731
     else:
         rough = g.uniform(0.05, 1.0, 64)
         f = lambda tt: np.interp(tt, np.linspace(0, 1, 64), rough)     # noqa: E731
